@@ -1050,10 +1050,8 @@ func runCase(c Case) (res evid.Result, _ error) {
 				case "doc":
 					scanLabels(text, labels)
 					switch {
-					case L <= M-2:
+					case L <= M: // "documents larger than this will be skipped": a document of exactly the limit is not larger
 						e.must = true
-					case L <= M:
-						e.may = true
 					}
 					for _, d := range []int{-3, -2, -1, 0, 1, 2} {
 						if L == M+d {
